@@ -293,11 +293,42 @@ def ordThen : Option Ordering → (Unit → Option Ordering) → Option Ordering
   | some .eq, k => k ()
   | o, _ => o
 
+/-! #### `value_cmp`
+
+At the pinned commit `value_cmp` compares two objects by zipping the two *iteration orders*
+(defect D12: the outcome depends on `HashMap` layout).  That behaviour is kept below as
+`valueCmpOld / cmpLOld / cmpOOld`.  `valueCmp / cmpL / cmpO` model the repaired code
+(patches/C11-object-cmp-sorted.diff): both entry lists are sorted by key (stable) before the
+lexicographic comparison. -/
+
+/-- stable insertion into a key-sorted entry list (before the first entry whose key is `≥ k`) -/
+def insK {α : Type} (k : Str) (a : α) : List (Str × α) → List (Str × α)
+  | [] => [(k, a)]
+  | (k', b) :: r => if strCmp k k' == .gt then (k', b) :: insK k a r else (k, a) :: (k', b) :: r
+
+/-- `entries.sort_by(|a, b| a.0.cmp(&b.0))` (stable; by UTF-8 byte order = scalar value order) -/
+def sortK {α : Type} : List (Str × α) → List (Str × α)
+  | [] => []
+  | (k, a) :: r => insK k a (sortK r)
+
+/-- `Iterator::partial_cmp` over `(key, ValueViewCmp)` tuples; the left values are carried as
+their comparison functions `valueCmp x` (keeps the recursion below structural). -/
+def lexK : List (Str × (V → Option Ordering)) → List (Str × V) → Option Ordering
+  | [], [] => some .eq
+  | [], _ :: _ => some .lt
+  | _ :: _, [] => some .gt
+  | (k, f) :: xs, (k', y) :: ys =>
+    match strCmp k k' with
+    | .eq => (match f y with
+              | some .eq => lexK xs ys
+              | o => o)
+    | o => some o
+
 mutual
 def valueCmp : V → V → Option Ordering
   | .sc x, .sc y => scalarCmp x y
   | .arr xs, .arr ys => cmpL xs ys
-  | .obj xs, .obj ys => cmpO xs ys
+  | .obj xs, .obj ys => lexK (sortK (cmpFns xs)) (sortK ys)
   | _, _ => none
 /-- `Iterator::partial_cmp` (lexicographic) over `ValueViewCmp` -/
 def cmpL : List V → List V → Option Ordering
@@ -308,15 +339,39 @@ def cmpL : List V → List V → Option Ordering
     match valueCmp x y with
     | some .eq => cmpL xs ys
     | o => o
+/-- each entry's value replaced by "compare me with …" -/
+def cmpFns : Obj → List (Str × (V → Option Ordering))
+  | [] => []
+  | (k, x) :: r => (k, valueCmp x) :: cmpFns r
+end
+
+/-- repaired object comparison: lexicographic over the entries sorted by key -/
+def cmpO (xs ys : Obj) : Option Ordering := lexK (sortK (cmpFns xs)) (sortK ys)
+
+/-! behaviour at the pinned commit (objects zipped in iteration order) -/
+mutual
+def valueCmpOld : V → V → Option Ordering
+  | .sc x, .sc y => scalarCmp x y
+  | .arr xs, .arr ys => cmpLOld xs ys
+  | .obj xs, .obj ys => cmpOOld xs ys
+  | _, _ => none
+def cmpLOld : List V → List V → Option Ordering
+  | [], [] => some .eq
+  | [], _ :: _ => some .lt
+  | _ :: _, [] => some .gt
+  | x :: xs, y :: ys =>
+    match valueCmpOld x y with
+    | some .eq => cmpLOld xs ys
+    | o => o
 /-- lexicographic over `(key, ValueViewCmp)` tuples, in iteration order -/
-def cmpO : Obj → Obj → Option Ordering
+def cmpOOld : Obj → Obj → Option Ordering
   | [], [] => some .eq
   | [], _ :: _ => some .lt
   | _ :: _, [] => some .gt
   | (k, x) :: xs, (k', y) :: ys =>
     match strCmp k k' with
-    | .eq => (match valueCmp x y with
-              | some .eq => cmpO xs ys
+    | .eq => (match valueCmpOld x y with
+              | some .eq => cmpOOld xs ys
               | o => o)
     | o => some o
 end
